@@ -215,7 +215,13 @@ Section LevelC.
       destruct (INV_add_cache k rest P res cache i Hk Hvi Hemp Hdi Hvr HvP (INV_weaken _ _ _ _ _ _ HI)) as [HI' _].
       split; [|exact HI'].
       cbn [cpn]. rewrite HX2. fold (fv res cache (X k i)). rewrite Hfv, Enl.
-      rewrite (right_sibling_none n hempty hleaf hbranch lv Hlen k i (proj1 Hvi) Hemp). rewrite Epar, Eins. reflexivity.
+      assert (Hclash : match lookup res Y with Some e => negb (heqb e (nval k i)) | None => false end = false).
+      { destruct HI as (T1 & _). destruct (lookup res Y) as [e|] eqn:Ee; [|reflexivity].
+        rewrite (T1 _ _ Ee (k + 1) (i / 2)); [|split; [apply vnode_parent; assumption|reflexivity]].
+        rewrite (parent_value n hempty hleaf hbranch lv Hlen k i Hvi Hk).
+        destruct (N.ltb_spec (sib_of i * 2 ^ k) n); [lia|]. rewrite heqb_refl. reflexivity. }
+      rewrite (right_sibling_none n hempty hleaf hbranch lv Hlen k i (proj1 Hvi) Hemp). rewrite Epar. cbv zeta.
+      rewrite Hclash, Eins. reflexivity.
     Qed.
 
     (* sibling exists and its carrying node already has a (true) value in the result map *)
